@@ -1,4 +1,4 @@
 SPECIFICATION Spec
-CONSTANTS MaxThreads = 2 NC = 1 Jobs = 3 Ordered = FALSE MaxSpurious = 0 defaultInitValue = defaultInitValue
+CONSTANTS MaxThreads = 2 NC = 1 Jobs = 3 Ordered = FALSE MaxSpurious = 0 Mixed = FALSE defaultInitValue = defaultInitValue
 INVARIANT DumpHist
 CHECK_DEADLOCK FALSE
